@@ -42,7 +42,7 @@ REAL_VS_STUB = {"generator CLI incl. httpx.post request building": "real, child 
 
 URL = "http://schema.test/graphql"
 PEER_FAULTS = (
-    [{"kind": "status", "status": s} for s in (301, 400, 401, 404, 500, 503)]
+    [{"kind": "status", "status": s} for s in (301, 400, 401, 404, 500, 503, 199, 300, 201, 299)]
     + [{"kind": "nonjson", "v": v} for v in range(6)]
     + [{"kind": "torn", "at": a} for a in (1, 17, 1000, 50000)]
     + [{"kind": "json_nonobject", "v": v} for v in range(4)]
@@ -171,9 +171,12 @@ def run_case(case, ch: Choices) -> RunResult:
     trace = ["world=%s shape=%s" % (world.get("id", "drawn"), json.dumps(world.get("shape")))]
     sdl = worlds.sdl_of(world)
     token = "secret-%d" % ch.draw("env.token", 1000)
-    verify = bool(ch.draw("cfg.verify", 2))
-    remote_cfg = {"remote_schema_headers": {"Authorization": "$SIM_TOKEN", "X-Static": "plain value", "X-Dollar-Later": "a$b"},
-                  "remote_schema_verify_ssl": verify}
+    vmode = ch.draw("cfg.verify", 3)
+    verify = [False, True, True][vmode]
+    remote_cfg = {"remote_schema_headers": {"Authorization": "$SIM_TOKEN", "X-Static": "plain value", "X-Dollar-Later": "a$b",
+                                            "X-Prefixed": "Bearer $SIM_TOKEN"}}
+    if vmode != 2:
+        remote_cfg["remote_schema_verify_ssl"] = verify     # vmode 2: option left out, the documented default is true
     try:
         # (a) single file
         root_a = os.path.join(base, "a")
@@ -252,14 +255,17 @@ def run_case(case, ch: Choices) -> RunResult:
                     res.violations.append(Violation("introspection-request", "sent %s %s, configured POST %s" % (rq["method"], rq["url"], url), {}))
                 if not rq.get("json") or not isinstance(rq.get("query"), str) or "__schema" not in rq["query"]:
                     res.violations.append(Violation("introspection-request", "request body is not an introspection query: %r" % (rq.get("query") or "")[:100], {}))
-                want = {"authorization": token, "x-static": "plain value", "x-dollar-later": "a$b"}
+                if (hd.get("content-type") or [""])[0].split(";")[0].strip() != "application/json":
+                    res.violations.append(Violation("introspection-request", "introspection POST has Content-Type %r" % hd.get("content-type"), {}))
+                want = {"authorization": token, "x-static": "plain value", "x-dollar-later": "a$b", "x-prefixed": "Bearer $SIM_TOKEN"}
                 for k, v in want.items():
                     if hd.get(k) != [v]:
                         res.violations.append(Violation("introspection-headers", "header %s sent as %r, configured value resolves to %r" % (k, hd.get(k), v), {"header": k}))
             for c in rc.get("constructed", []):
                 if c["verify"] is not verify:
                     res.violations.append(Violation("introspection-verify-flag", "transport built with verify=%r, remote_schema_verify_ssl=%r" % (c["verify"], verify), {}))
-            if not fault:
+            healthy_2xx = bool(fault) and fault["kind"] == "status" and 200 <= fault["status"] <= 299
+            if not fault or healthy_2xx:
                 if not rc.get("http"):
                     res.violations.append(Violation("introspection-request", "no request reached the endpoint; outcome %s" % exc.get("type"), {}))
                 if rc.get("exit") != 0:
